@@ -215,8 +215,8 @@ def tab_op(run):
         run.check(not missing, R, R + "|bigint|" + name, f.loc(), "%s is built on %s" % (name.rsplit("::", 2)[-1] if "::" in name else name, want_calls),
                   "%s no longer uses %s (it calls %s): the operator would compute something else" % (name, missing, sorted(calls)))
     # --- exact operation profile of every big-integer primitive: which value operations it is built from
-    got_prof = bigint_profile(prog)
     want_prof = spec["bigint_profile"]
+    got_prof = bigint_profile(prog, set(want_prof))
     for name in sorted(set(got_prof) | set(want_prof)):
         g_ = got_prof.get(name, {"value": [], "guard": []})
         w_ = want_prof.get(name)
@@ -266,7 +266,7 @@ def tab_op(run):
 GUARD_OPS = re.compile(r"(::bits$|::sign$|^std::cmp::|::is_zero$)")
 
 
-def bigint_profile(prog):
+def bigint_profile(prog, known=None):
     prof = {}
     for f in prog.real_fns():
         root = f.raw.get("root") or f.id
@@ -280,7 +280,47 @@ def bigint_profile(prog):
                     or (big and c.startswith("std::cmp::")) or (big and re.search(r"BigInt::(set_bit|get_bit|slice|checked_\w+|concat|min_size|sign|bits)$", c)):
                 e = prof.setdefault(root, {"value": set(), "guard": set()})
                 e["guard" if GUARD_OPS.search(c) else "value"].add(c)
-    return {k: {"value": sorted(v["value"]), "guard": sorted(v["guard"])} for k, v in prof.items()}
+    # private helpers: a function of util::bigint that is not in the audited table and is only called from util::bigint itself
+    # contributes its operations to its callers (a guard or a step factored out of several primitives)
+    if known is not None:
+        local = {}
+        callers = {}
+        for f in prog.real_fns():
+            root = f.raw.get("root") or f.id
+            for bi, t in f.calls():
+                c = t.get("resolved") or t.get("callee") or ""
+                if "util::bigint" in c and prog.fn(c) is not None:
+                    callers.setdefault(c, set()).add(root)
+                    if "util::bigint" in root:
+                        local.setdefault(root, set()).add(c)
+        helpers = {h for h in prof if h not in known and callers.get(h) and all("util::bigint" in c for c in callers[h])}
+        # helpers that perform no operation themselves but are unknown stay out of the way as well
+        for h in list(callers):
+            if h not in known and h not in prof and "util::bigint" in h and all("util::bigint" in c for c in callers[h]):
+                helpers.add(h)
+                prof.setdefault(h, {"value": set(), "guard": set()})
+        changed = True
+        n = 0
+        while changed and n < 8:
+            changed = False
+            n += 1
+            for root, cs in local.items():
+                for h in cs & helpers:
+                    if root == h:
+                        continue
+                    e = prof.setdefault(root, {"value": set(), "guard": set()})
+                    for k_ in ("value", "guard"):
+                        add = prof[h][k_] - e[k_]
+                        if add:
+                            e[k_] |= add
+                            changed = True
+        for h in helpers:
+            prof.pop(h, None)
+        # the call of the helper itself is not an operation
+        for e in prof.values():
+            e["value"] -= helpers
+            e["guard"] -= helpers
+    return {k: {"value": sorted(v["value"]), "guard": sorted(v["guard"])} for k, v in prof.items() if v["value"] or v["guard"] or known is None or k in known}
 
 
 def _straight(f, b, limit=5):
@@ -571,3 +611,55 @@ def _split_args(s):
     if cur.strip():
         out.append(cur.strip())
     return out
+
+
+def propagate_rule(run, R="TAB-op"):
+    """the evaluator: the value of every sub-expression is asked `should_propagate()` (not known yet / failed constraint) before
+    its kind is looked at, and is handed back unchanged when it says yes -- so `unknown` never becomes a type error"""
+    from mir import peel
+    ev = [f for f in run.prog.real_fns() if f.id.endswith("Expr>::eval_with_ctx")]
+    if len(ev) != 1:
+        run.violation(R, R + "|propagate|anchor", "-", "mechanism not found: Expr::eval_with_ctx")
+        return
+    ev = ev[0]
+    rec = [(bi, t) for bi, t in ev.calls() if (t.get("resolved") or "") == ev.id]
+    sp = [(bi, t) for bi, t in ev.calls() if (t.get("callee") or "").endswith("Value::should_propagate")]
+
+    def source_call(op):
+        o = ev.origin_op(op)
+        n = 0
+        while o is not None and n < 14:
+            n += 1
+            if o[0] in ("ref", "cast"):
+                o = o[1]
+            elif o[0] == "place":
+                o = o[1]
+            elif o[0] == "call":
+                if (o[1].get("callee") or "") == "std::ops::Try::branch" and o[1]["args"]:
+                    o = ev.origin_op(o[1]["args"][0])
+                else:
+                    return o[1]
+            elif o[0] == "multi":
+                ds = [d for d in o[2]]
+                if len(ds) == 1 and ds[0][0] == "call":
+                    return ds[0][2]
+                if len(ds) == 1 and ds[0][0] == "stmt" and ds[0][3]["rv"]["k"] == "use":
+                    o = ev.origin_op(ds[0][3]["rv"]["op"])
+                else:
+                    return None
+            else:
+                return None
+        return None
+    asked = {}
+    for bi, t in sp:
+        c = source_call(t["args"][0])
+        if c is not None:
+            asked.setdefault(id(c), []).append(bi)
+    missing = []
+    for bi, t in rec:
+        hits = [b for b in asked.get(id(t), []) if ev.dominates(bi, b)]
+        if not hits:
+            missing.append(ev.loc(t["span"]))
+    run.check(len(rec) >= 10 and not missing, R, R + "|propagate|every-subexpression", ev.loc(),
+              "each of the %d sub-expression evaluations is asked should_propagate() before its value is used" % len(rec),
+              "the evaluator uses the value of a sub-expression without asking should_propagate() first (%s): a symbol that is not known yet in this pass would be answered with a type error instead of `unknown`" % ", ".join(missing[:4]))
